@@ -181,3 +181,23 @@ def find_stmt(fi: FuncInfo, pred) -> list[ast.stmt]:
 def require(cond: bool, msg: str) -> None:
     if not cond:
         raise AnalysisError(msg)
+
+
+def run_as(ctx, fn, old_id: str, new_id: str, prefix: str = "") -> None:
+    """Run a rule function of another property module and report what it records under ``new_id`` (the rule text gets
+    ``prefix``): one mechanism can be a necessary condition of two properties."""
+    r = ctx.r
+    before = len(r.obligations)
+    nf = len(r.findings)
+    fl = len(r.floor_failures) if hasattr(r, "floor_failures") else 0
+    fn(ctx)
+    for o in r.obligations[before:]:
+        if o["rule"] == old_id:
+            o["rule"] = new_id
+    for f in r.findings[nf:]:
+        if f.rule == old_id:
+            f.rule = new_id
+    r.rule_counts[new_id] = r.rule_counts.get(new_id, 0) + r.rule_counts.pop(old_id, 0)
+    r.rule_text[new_id] = prefix + r.rule_text.pop(old_id, "")
+    if hasattr(r, "floor_failures"):
+        r.floor_failures[fl:] = [x.replace(old_id, new_id) if isinstance(x, str) else x for x in r.floor_failures[fl:]]
